@@ -530,6 +530,28 @@ theorem qmap_append (em : EcdfMethod) (im : IecdfMethod) (x y a b : List Rat) :
     qmap em im x y (a ++ b) = qmap em im x y a ++ qmap em im x y b := by
   rw [qmap_eq_map, qmap_eq_map, qmap_eq_map, List.map_append]
 
+/-- the extrapolating variant is element-wise too: whether *other* values of the vector leave the source range (on one
+    side, both sides or not at all) does not matter for the value at a position -/
+theorem qmapExtrap_elementwise (em : EcdfMethod) (im : IecdfMethod) (x y vals : List Rat) (d : Rat) (idx : List Nat) :
+    qmapExtrap em im x y (idx.map (fun i => vals.getD i d)) =
+      idx.map (fun i => (qmapExtrap em im x y vals).getD i (qmapExtrap1 em im x y d)) := by
+  rw [qmapExtrap_eq_map, qmapExtrap_eq_map]; exact map_select _ _ _ _
+
+theorem qmapExtrap_append (em : EcdfMethod) (im : IecdfMethod) (x y a b : List Rat) :
+    qmapExtrap em im x y (a ++ b) = qmapExtrap em im x y a ++ qmapExtrap em im x y b := by
+  rw [qmapExtrap_eq_map, qmapExtrap_eq_map, qmapExtrap_eq_map, List.map_append]
+
+/-- a vector whose values all lie above the source range gets the constant shift at every position (one-sided case) -/
+theorem qmapExtrap_all_above (em : EcdfMethod) (im : IecdfMethod) (x y vals : List Rat) (h : ∀ v ∈ vals, maxQ x < v) :
+    qmapExtrap em im x y vals = vals.map (fun v => v + (maxQ y - maxQ x)) := by
+  rw [qmapExtrap_eq_map]
+  exact List.map_congr_left (fun v hv => qmapExtrap_above em im x y (h v hv))
+
+theorem qmapExtrap_all_below (em : EcdfMethod) (im : IecdfMethod) (x y vals : List Rat) (hx : x ≠ [])
+    (h : ∀ v ∈ vals, v < minQ x) : qmapExtrap em im x y vals = vals.map (fun v => v + (minQ y - minQ x)) := by
+  rw [qmapExtrap_eq_map]
+  exact List.map_congr_left (fun v hv => qmapExtrap_below em im x y hx (h v hv))
+
 theorem ecdf_elementwise (m : EcdfMethod) (x ys : List Rat) (d : Rat) (idx : List Nat) :
     ecdf m x (idx.map (fun i => ys.getD i d)) = idx.map (fun i => (ecdf m x ys).getD i (ecdf1 m x d)) :=
   map_select _ _ _ _
